@@ -15,7 +15,7 @@ import (
 // C08 — validation results are written back: 304 freshens, 200 replaces.
 func init() { register(&Check{ID: "C08", Run: runC08, ShardDepth: 3}) }
 
-var c08Answers = []string{"304", "304+X-New", "304+max-age=20", "304+CL+hop", "304-no-date", "200-same-vary", "200-other-vary", "200-no-store", "500"}
+var c08Answers = []string{"304", "304+X-New", "304+max-age=20", "304+CL+hop", "304+CL+hop-lowercase", "304-no-date", "200-same-vary", "200-other-vary", "200-no-store", "500"}
 
 func runC08(x *mc.X) {
 	kind := mc.Pick(x, "stored.kind", []string{"max-age=10", "heuristic", "max-age=5,swr=100"})
@@ -103,6 +103,8 @@ func runC08(x *mc.X) {
 					hh = append(hh, [2]string{"Cache-Control", "max-age=20"})
 				case "304+CL+hop":
 					hh = append(hh, [2]string{"Content-Length", "9999"}, [2]string{"Connection", "X-Hop"}, [2]string{"X-Hop", "h"}, [2]string{"Keep-Alive", "timeout=5"})
+				case "304+CL+hop-lowercase": // connection options are case-insensitive
+					hh = append(hh, [2]string{"Content-Length", "9999"}, [2]string{"Connection", "x-hop, KEEP-ALIVE"}, [2]string{"X-Hop", "h"}, [2]string{"Keep-Alive", "timeout=5"})
 				}
 				resp := o.Respond(c, RS{Status: 304, NoTok: true, H: hh, NoDate: ans == "304-no-date"})
 				h304, c304 = resp.Header.Clone(), c
@@ -194,7 +196,7 @@ func runC08(x *mc.X) {
 					x.Failf("304 field not replaced in the stored response ("+path+" "+ans+"): "+k, "field %s = %q on the follow-up, the 304 carried %q", k, f.Header.Get(k), v[0])
 				}
 			}
-			if ans == "304+CL+hop" {
+			if strings.HasPrefix(ans, "304+CL+hop") {
 				if f.Header.Get("Content-Length") == "9999" || f.Header.Get("X-Hop") != "" || f.Header.Get("Keep-Alive") != "" || f.Header.Get("Connection") != "" {
 					x.Failf("304 Content-Length / hop-by-hop fields merged into the stored response ("+path+")", "follow-up header: %v", f.Header)
 				}
